@@ -513,7 +513,7 @@ def record_size(record: dict) -> Tuple[int, int, str]:
     return (len(txt), inv, txt)
 
 
-def shrink(engine: Any, record: dict, key: Tuple[str, str], budget: int) -> Tuple[dict, int]:
+def shrink(engine: Any, record: dict, key: Tuple[str, str], budget: int, wall_s: float = 600.0) -> Tuple[dict, int]:
     """Greedy fixed-point minimisation.  Every candidate is a complete re-execution in
     replay mode (skip semantics make a pruned schedule a legal schedule); it is kept only
     if the violation has the same (oracle, signature)."""
@@ -521,7 +521,7 @@ def shrink(engine: Any, record: dict, key: Tuple[str, str], budget: int) -> Tupl
     improved = True
     best = record
     best_size = record_size(best)
-    t_end = time.time() + 600
+    t_end = time.time() + wall_s
     while improved and n < budget and time.time() < t_end:
         improved = False
         for cand in _all_candidates(engine, best):
@@ -802,6 +802,7 @@ def finish(prop: str, tier: str, base_seed: int, merged: dict, engine: Any, shri
 
     exit_code = EXIT_OK
     replay_paths = []
+    shrink_spent = 0.0
     for key, entry in reports[:8]:
         # confirm in replay mode first: the recorded schedule must reproduce the violation
         try:
@@ -813,7 +814,13 @@ def finish(prop: str, tier: str, base_seed: int, merged: dict, engine: Any, shri
         if out0.key() != key or (digest_exact and out0.digest != entry["digest"]):
             merged["harness_errors"].append({"error": f"nondeterministic replay for seed {entry['seed']}: {key}/{entry['digest']} vs {out0.key()}/{out0.digest}"})
             continue
-        small, n = shrink(engine, entry["record"], key, shrink_budget)
+        # minimisation is bounded in wall time too (line-level pre-emption makes single re-executions slow): per report and
+        # in total; what is not minimised in time is reported as found
+        per = 120.0 if tier == "quick" else 600.0
+        left = (360.0 if tier == "quick" else 2400.0) - shrink_spent
+        t_sh = time.time()
+        small, n = shrink(engine, entry["record"], key, shrink_budget, wall_s=max(5.0, min(per, left)))
+        shrink_spent += time.time() - t_sh
         out1 = execute_replay(engine, small)
         if out1.key() != key:
             small, out1 = entry["record"], out0
